@@ -40,7 +40,8 @@ GUARDS = [
 TARGETS = {
     "C01": ["addMark_applies", "removeMark_applies"],
     "C04": ["replace_undo_transitive", "removeMarkStep_undo", "addMarkStep_undo", "markHistory_undo", "markHistory_undo_bmp",
-            "family_step", "family_history_undo", "family_history_undo_run", "opHistory_undo", "structHistory_undo_bmp"],
+            "family_step", "family_history_undo", "family_history_undo_run", "opHistory_undo", "structHistory_undo_bmp",
+            "structHistory_undo_bmp'", "mixedHistory_undo_bmp"],
     "C11": ["fitStep_decreases", "fitLoop_outOfFuel_exact", "fitLoop_terminates", "replaceStep_outOfFuel_cycle",
             "replaceStep_not_outOfFuel", "fit_no_internal_partial", "replaceStep_total_partial", "delete_total",
             "delete_total_respects", "deleteRange_total", "insertInline_total", "fit_emits_wf", "coherent_invariant",
